@@ -454,6 +454,12 @@ func (e *Engine) solveAll(dir string, timeout time.Duration, workers int) {
 var buildTime time.Duration
 
 func (e *Engine) solveOne(ob *Obligation, dir string, timeout time.Duration) {
+	defer func() {
+		if r := recover(); r != nil {
+			ob.Status = "error"
+			ob.Output = fmt.Sprintf("engine error while building the query: %v", r)
+		}
+	}()
 	tb := time.Now()
 	smt := e.buildSMT(ob)
 	buildTime += time.Since(tb)
